@@ -186,9 +186,9 @@ pub fn prop_of(ins: &Instr) -> &'static str {
         NConst { .. } | NVar { .. } | NBin { .. } | NIte { .. } | NRestrict { .. } => "C10",
         TConst { .. } | TVar { .. } | TNot { .. } | TNotEdgeOwned { .. } | TBin { .. } | TIte { .. } | TCof { .. } => "C11",
         Order { .. } => "C08",
-        AddVars { .. } | AddNamed { .. } | AddNamedMap { .. } | SetName { .. } => "C16",
+        AddVars { .. } | AddVarsInReorder { .. } | AddNamed { .. } | AddNamedMap { .. } | SetName { .. } => "C16",
         Clone { .. } | Drop { .. } | Gc => "C05",
-        NodeCount { .. } => "C03",
+        NodeCount { .. } | BigCount { .. } => "C03",
     }
 }
 
